@@ -111,6 +111,44 @@ Logic(h, adf, I, wb) ==
            result    == ApplyInterp(adf, concluded)
        IN IF CheckCons(result, concluded) THEN <<result>> ELSE <<I>>
 
+\* the recursion entries of Logic in the order the code makes them (pre-order): <<interpretation, will_be, depth>> as T/F/U
+TVf(f) == IF f = TOPF_ THEN "T" ELSE IF f = {} THEN "F" ELSE "U"
+TVI(I) == [s \in Stmts |-> TVf(I[s])]
+RECURSIVE Visits(_, _, _, _, _)
+RECURSIVE VisitsCubes(_, _, _, _, _, _, _, _, _)
+VisitsCubes(h, adf, I, wb, idx, cm, cubes, i, d) ==
+  IF i > Len(cubes) THEN <<>>
+  ELSE LET neg == cubes[i][1]
+           pos == cubes[i][2]
+           ok  == /\ \A j \in DOMAIN neg : ~(I[neg[j]] = TOPF_ \/ wb[neg[j]] = TOPF_)
+                  /\ \A j \in DOMAIN pos : ~(I[pos[j]] = {} \/ wb[pos[j]] = {})
+       IN IF ~ok THEN (IF FixedLoop THEN VisitsCubes(h, adf, I, wb, idx, cm, cubes, i + 1, d) ELSE <<>>)
+          ELSE LET n1  == SetTo(SetTo(I, neg, {}), pos, TOPF_)
+                   n2  == [n1 EXCEPT ![idx] = IF cm THEN TOPF_ ELSE {}]
+                   upd == UpdateInterp(n2)
+                   sub == IF CheckCons(upd, wb) THEN Visits(h, adf, upd, wb, d + 1) ELSE <<>>
+               IN sub \o VisitsCubes(h, adf, I, wb, idx, cm, cubes, i + 1, d)
+Visits(h, adf, I, wb, d) ==
+  LET C == { s \in Stmts : ~IsTV(I[s]) /\ ~IsTV(wb[s]) }
+      here == << <<TVI(I), TVI(wb), d>> >> IN
+  IF C # {} THEN
+     LET idx    == Pick(h, C, I)
+         ac     == I[idx]
+         cm     == ~MoreModels(ac)
+         cubes  == Cubes(ac, cm, idx, <<>>, <<>>)
+         first  == VisitsCubes(h, adf, I, wb, idx, cm, cubes, 1, d)
+         n2     == [s \in Stmts |-> Cof(I[s], idx, ~cm)]
+         u2     == UpdateInterp(n2)
+         second == IF NoInfInc(n2[idx], u2[idx])
+                   THEN LET u3 == [u2 EXCEPT ![idx] = IF cm THEN {} ELSE TOPF_] IN
+                        IF NoInfInc(n2[idx], u3[idx])
+                        THEN Visits(h, adf, u3, [wb EXCEPT ![idx] = n2[idx]], d + 1)
+                        ELSE <<>>
+                   ELSE <<>>
+     IN here \o first \o second
+  ELSE here
+VisitsFromStart(h, adf) == Visits(h, adf, GroundedInternal(adf, N), [s \in Stmts |-> UND], 0)
+
 \* stable_count_optimisation_heu_{a,b}: candidates filtered by stability_check
 CountStable(h, adf) ==
   LET cands == Logic(h, adf, GroundedInternal(adf, N), [s \in Stmts |-> UND]) IN
